@@ -98,6 +98,15 @@ Theorem C01_exact_number_of_winners_partial : forall A S (ZL : zlike A S) cfg,
 Proof. exact count_winners. Qed.
 Print Assumptions C01_exact_number_of_winners_partial.
 
+(* ... and the Scottish rule (its closing steps are "elect all remaining if they fit, then defeat the rest") *)
+Theorem C01_exact_number_of_winners_scotland_partial : forall A S (ZL : zlike A S) cfg,
+  cf_method cfg = MWigm -> exact A = false -> 0 <= cf_nballots cfg -> 0 <= cf_nseats cfg ->
+  forall pr fuel s k, wf_profile pr -> cf_nballots cfg = ballot_total pr ->
+  exec (@crashed A) fuel (count_cmd A cfg RScotland) (init_state A cfg pr) = Some (s, k) -> k <> Abort ->
+  nlen (electeds A s) = Z.min (cf_nseats cfg) (nlen (eligibles A s)).
+Proof. exact count_winners_scotland. Qed.
+Print Assumptions C01_exact_number_of_winners_scotland_partial.
+
 (* the full statement is FALSE for meek under guarded arithmetic with guard > 0: the model (which agrees with the
    code on this input, corpus K2) ends in a ZeroDivisionError.  5 candidates, 4 seats, ballots "1: 3 1 5", "5: 5". *)
 Definition k2_profile : profile :=
